@@ -91,8 +91,12 @@ def ext_models(dgram=None, writes=None, concrete_clock=False, max_writes=None):
             # may be walking the packet in circles
             raise bpa.Halt()
         return n
-    return {'clock_gettime': clock_gettime, 'fprintf': noop, 'perror': noop, 'printf': noop, 'puts': noop,
-            'recv': recv, 'write': write}
+    m = {'clock_gettime': clock_gettime, 'recv': recv, 'write': write}
+    # C library calls without an effect on the tunnel: diagnostics, signal set-up, exit hooks
+    for name in ('fprintf', 'perror', 'printf', 'puts', 'fputs', 'putchar', 'fflush', 'sigemptyset', 'sigfillset', 'sigaddset',
+                 'sigaction', 'signal', 'atexit', 'setvbuf', 'strerror', 'syslog', 'openlog'):
+        m[name] = noop
+    return m
 
 
 def frame_region(mod, k, cls, L, fd, concrete_flags=False, concrete_id=False):
@@ -185,6 +189,11 @@ def talker_at(tm, use_tscf, use_udp, fd, frames, level, cap):
             return None, 'talker function %s not found' % fn
     mfn = tm.functions['main']
 
+    # the talker is followed from program start: every other global has the value of its initialiser (option flags that
+    # argp_parse - modelled away - would set, counters, a `stop_requested` flag only a signal handler sets)
+    for k, v in bpa.initial_global_regions(tm, skip=set(regs)).items():
+        regs[k] = v
+
     def mk():
         state['k'] = 0
         return [1, bpa.NULL][:len(mfn.params)], dict((k, Region(v.name, v.kind, v.size, dict(v.mem), v.writable)) for k, v in regs.items())
@@ -252,7 +261,7 @@ def listener(lm, use_udp, fd, img, nframes=None):
         return r
     # bulk packets carry concrete flags: a correct listener stays on one path; one that starts to interpret payload
     # octets as headers forks without end - cap it early
-    cap = 512 if (nframes is None or nframes <= 3) else 16
+    cap = 4096 if (nframes is None or nframes <= 3) else 16
     ws = bpa.analyse(lm, script, mk, max_worlds=cap, max_steps=600000)
     out = []
     k = 0
@@ -292,6 +301,15 @@ def judge(t):
             if x not in out:
                 out.append(x)
         sample = sample or s1
+        if not use_udp and tk['len'] < 46:
+            # raw Ethernet: a frame with less than 46 payload octets is zero-padded on the wire and the packet socket
+            # delivers the padding, so the listener receives more octets than the talker sent
+            tk2 = dict(tk)
+            tk2['padded'] = True
+            o2, _ = judge_packet(t, tk2, desc + ' [padded to the Ethernet minimum of 46 octets]')
+            for x in o2:
+                if x not in out:
+                    out.append(x)
     aspects = ['announced-length', 'frame-count', 'identifier', 'rtr', 'eff', 'len', 'data'] + (['brs', 'esi', 'fdf'] if fd else [])
     failed = set()
     for st, key, text in out:
@@ -315,7 +333,10 @@ def judge_packet(t, tk, desc):
     ann = announced(tk['img'], tk['cf'], use_tscf)
     if ann != tk['acf']:
         out.append(('violation', 'announced-length', '%s: the control header announces %r octets of ACF messages, %d follow' % (desc, ann, tk['acf'])))
-    res = listener(lm, use_udp, fd, tk['img'], len(frames))
+    img = tk['img']
+    if tk.get('padded'):
+        img = list(img) + [0] * (46 - len(img))
+    res = listener(lm, use_udp, fd, img, len(frames))
     feas = []
     for w, wr in res:
         if w.status == 'infeasible' or B.PathCond(tdec + list(w.decisions)).infeasible:
@@ -324,8 +345,8 @@ def judge_packet(t, tk, desc):
             out.append(('undecided', 'listener', '%s: listener side: %s' % (desc, w.reason)))
             continue
         feas.append((w, wr))
-    if len(res) >= (512 if len(frames) <= 3 else 16):
-        out.append(('undecided', 'listener', '%s: more than %d worlds' % (desc, 512 if len(frames) <= 3 else 16)))
+    if len(res) >= (4096 if len(frames) <= 3 else 16):
+        out.append(('undecided', 'listener', '%s: more than %d worlds' % (desc, 4096 if len(frames) <= 3 else 16)))
     cls0 = frames[0][0] if len(frames) == 1 else 'multi'
     checked = set()
     for w, wr in feas:
